@@ -47,6 +47,7 @@ func ManageDeployment(client runtimeclient.Client, daemonset *datadoghqv1alpha1.
 
 	allPodToCreate := []*NodeItem{}
 	allPodToDelete := []*NodeItem{}
+	availablePodToDelete := []*NodeItem{}
 
 	nbNodes := len(params.PodByNodeName)
 
@@ -71,17 +72,19 @@ func ManageDeployment(client runtimeclient.Client, daemonset *datadoghqv1alpha1.
 			allPods++
 			// Check for any differences between stored pod and existing pod
 			if !compareCurrentPodWithNewPod(params, pod, node) {
-				if pod.DeletionTimestamp == nil {
-					allPodToDelete = append(allPodToDelete, node)
-				} else {
+				if pod.DeletionTimestamp != nil {
 					podsTerminating++
 
 					continue
 				}
+				// Pods that are already unavailable are replaced first: deleting them
+				// does not consume the maxUnavailable budget.
 				if podutils.IsPodAvailable(pod, 0, metaNow) {
 					oldAvailablePods++
+					availablePodToDelete = append(availablePodToDelete, node)
 				} else {
 					oldUnavailablePods++
+					allPodToDelete = append(allPodToDelete, node)
 				}
 			} else {
 				createdPods++
@@ -94,6 +97,8 @@ func ManageDeployment(client runtimeclient.Client, daemonset *datadoghqv1alpha1.
 			}
 		}
 	}
+
+	allPodToDelete = append(allPodToDelete, availablePodToDelete...)
 
 	// Retrieves parameters for calculation
 	maxUnavailable, err := intstrutil.GetValueFromIntOrPercent(params.Strategy.RollingUpdate.MaxUnavailable, nbNodes, true)
